@@ -48,7 +48,7 @@ func (c06) Runs(t Tier) int {
 }
 func (c06) RecordWidths() map[string]int { return nil }
 func (c06) RequiredProbes() []string {
-	return []string{"file-entity", "dir-entity", "plain-dir-entity", "linksystem-with-node-reifier", "repeat-access-on-same-root-object", "via-path-selector", "preload-reifier", "preload-selector", "entity-selector", "fault-on-last-block", "fault-on-interior", "kth-load", "subset-fault", "entries-have-blocks"}
+	return []string{"file-entity", "dir-entity", "plain-dir-entity", "linksystem-with-node-reifier", "repeat-access-on-same-root-object", "lazy-use-before-preload", "via-path-selector", "preload-reifier", "preload-selector", "entity-selector", "fault-on-last-block", "fault-on-interior", "kth-load", "subset-fault", "entries-have-blocks"}
 }
 
 // repeatMarker in faultPlan.after selects the "access twice on one root
@@ -80,6 +80,9 @@ func (c06) Run(ts *tape.Set, tier Tier) *Result {
 	if nodeReifier {
 		res.probe("linksystem-with-node-reifier")
 	}
+	// what matters below is whether the link system in fact hands out reified
+	// nodes, not whether this run asked for it (a helper may install a reifier)
+	lsReifies := newWorld(store.New(), false, nodeReifier).LS.NodeReifier != nil
 
 	st := store.New()
 	var entity cid.Cid
@@ -224,6 +227,21 @@ func (c06) Run(ts *tape.Set, tier Tier) *Result {
 					return walkMatching(w, rn, sel, visit)
 				}
 			}
+			priorUse := false
+			if lsReifies && isDir && !viaPath && access != 2 && planSeed%2 == 1 {
+				// the link system handed out an already reified directory node and
+				// the caller has been using it lazily (a lookup, a Length) before
+				// asking for the preloading view: every shard must still be fetched
+				_, _ = rn.LookupByString("entry that is looked up before the preload")
+				if planSeed%4 == 3 {
+					_ = rn.Length()
+				}
+				st.ResetLog()
+				st.SetReadCount(1) // the caller's own load of the root stays request #0
+				priorUse = true
+				res.probe("lazy-use-before-preload")
+			}
+			_ = priorUse
 			if p != nil && p.after == repeatMarker {
 				// a history on ONE root object and ONE link system: the access
 				// succeeds on a complete store, then blocks go missing, then
@@ -234,6 +252,7 @@ func (c06) Run(ts *tape.Set, tier Tier) *Result {
 					return
 				}
 				st.ResetLog()
+				st.SetReadCount(1)
 				res.probe("repeat-access-on-same-root-object")
 			}
 			if p != nil {
@@ -246,7 +265,7 @@ func (c06) Run(ts *tape.Set, tier Tier) *Result {
 		if hits != nil {
 			hit = hits()
 		}
-		if len(st.ReadCids) > 0 && !(p != nil && p.after == repeatMarker) {
+		if len(st.ReadCids) > 0 && !(p != nil && p.after == repeatMarker) && !(lsReifies && isDir && !viaPath && access != 2 && planSeed%2 == 1) {
 			requested = append([]cid.Cid{start}, st.ReadCids[1:]...)
 		} else {
 			requested = append([]cid.Cid{start}, st.ReadCids...)
@@ -310,7 +329,7 @@ func (c06) Run(ts *tape.Set, tier Tier) *Result {
 		if b.Equals(entity) && !viaPath {
 			continue
 		}
-		fl := 1 + i%4
+		fl := 1 + i%6
 		if fl == 4 && (viaPath || b.Equals(entity)) {
 			fl = 1 // SkipMe only on blocks that go-unixfsnode itself loads
 		}
@@ -344,7 +363,7 @@ func (c06) Run(ts *tape.Set, tier Tier) *Result {
 	// repeat-on-the-same-root-object histories: first, middle and last block
 	// (not when the link system hands out reified nodes: the root object is
 	// then itself a node that legitimately keeps the shards it has loaded)
-	if len(order) >= 2 && !nodeReifier {
+	if len(order) >= 2 && !lsReifies {
 		for _, i := range []int{1, len(order) / 2, len(order) - 1} {
 			if i >= 1 && i < len(order) {
 				plans = append(plans, faultPlan{kind: store.NotFound, targets: []cid.Cid{order[i]}, kth: -1, after: repeatMarker})
